@@ -51,6 +51,23 @@ func main() {
 		os.Exit(cmdCheck(os.Args[2:]))
 	case "replay":
 		os.Exit(cmdReplay(os.Args[2:]))
+	case "native":
+		// gosym native <pkgdir> <replay.json> <expect>: run a harness natively; expect = "ok" (no assertion fails)
+		if len(os.Args) < 5 {
+			fmt.Fprintln(os.Stderr, "usage: gosym native <pkgdir> <replay.json> ok")
+			os.Exit(2)
+		}
+		if v := os.Getenv("VERIF_DIR"); v != "" {
+			verifDir = v
+		}
+		okRun, out := nativeRun(os.Args[2], os.Args[3])
+		if okRun {
+			fmt.Println("NATIVE-OK", os.Args[2], os.Args[3])
+			os.Exit(0)
+		}
+		fmt.Println("NATIVE-MISMATCH", os.Args[2], os.Args[3])
+		fmt.Println(out)
+		os.Exit(2)
 	default:
 		fmt.Fprintln(os.Stderr, "unknown command")
 		os.Exit(2)
